@@ -228,8 +228,13 @@ def inline(inference_state, names):
         tree_name = name.tree_name
         path = name.get_root_context().py__file__()
         s = replace_code
+        use_site = tree_name.parent
+        if use_site.type == 'trailer' and use_site.children[0] == '.' \
+                and use_site.get_next_sibling() is None:
+            # `a.x` is replaced as a whole, so it matters where `a.x` is used.
+            use_site = use_site.parent.parent
         if rhs.type == 'testlist_star_expr' \
-                or tree_name.parent.type in _INLINE_NEEDS_PARENTHESES \
+                or use_site.type in _INLINE_NEEDS_PARENTHESES \
                 or tree_name.parent.type == 'trailer' \
                 and tree_name.parent.get_next_sibling() is not None:
             s = '(' + replace_code + ')'
